@@ -1,0 +1,59 @@
+// Verification hooks (cargo feature `verif-hooks`): public pass-throughs and read-only views of the
+// node record store. Purely additive; nothing here is used by the node.
+
+use super::*;
+
+impl NodeRecordStore {
+    pub fn verif_put_verified(&mut self, r: Record, record_type: RecordType) -> Result<()> {
+        self.put_verified(r, record_type)
+    }
+
+    pub fn verif_mark_as_stored(&mut self, key: Key, record_type: RecordType) {
+        self.mark_as_stored(key, record_type)
+    }
+
+    pub fn verif_contains(&self, key: &Key) -> bool {
+        self.contains(key)
+    }
+
+    pub fn verif_record_addresses(&self) -> HashMap<NetworkAddress, RecordType> {
+        self.record_addresses()
+    }
+
+    pub fn verif_quoting_metrics(
+        &self,
+        key: &Key,
+        network_size: Option<u64>,
+    ) -> (QuotingMetrics, bool) {
+        self.quoting_metrics(key, network_size)
+    }
+
+    pub fn verif_payment_received(&mut self) {
+        self.payment_received()
+    }
+
+    pub fn verif_set_responsible_distance_range(&mut self, distance: U256) {
+        self.set_responsible_distance_range(distance)
+    }
+
+    /// Copy of the distance index.
+    pub fn verif_distance_index(&self) -> Vec<(U256, Key)> {
+        self.records_by_distance
+            .iter()
+            .map(|(d, k)| (*d, k.clone()))
+            .collect()
+    }
+
+    /// Keys currently in the read cache.
+    pub fn verif_cache_keys(&self) -> Vec<Key> {
+        self.records_cache.records_cache.keys().cloned().collect()
+    }
+
+    pub fn verif_max_records(&self) -> usize {
+        self.config.max_records
+    }
+
+    pub fn verif_storage_dir(&self) -> PathBuf {
+        self.config.storage_dir.clone()
+    }
+}
